@@ -420,6 +420,8 @@ def final_attempt_program(base, max_attempts):
     """The program in which every scenario has the outcomes of its final auto-retry attempt."""
     from ..program import all_steps_of, scenario_instances, step_outcome
     expected = copy.deepcopy(base)
+    # step-hook faults of single attempts (never the last one): the attempt fails if the step is reached
+    once = dict(((i, int(a)), n) for n, i, _e, a in expected.pop("hook_faults_attempts", None) or [])
     named = set((n, i) for n, i, _e in base.get("hook_faults_named") or [])
     for f in expected["features"]:
         for inst in scenario_instances(f):
@@ -438,7 +440,11 @@ def final_attempt_program(base, max_attempts):
                         outs.append(s["acts"][a % len(s["acts"])])
                     else:
                         outs.append(step_outcome(s, inst["rowdict"]))
-                if not _scenario_fails(outs, wip):
+                hook_hit = False
+                for j, s in enumerate(steps):
+                    if (s.get("uid"), a) in once and all(o == "pass" or (o == "pending" and wip) for o in outs[:j]):
+                        hook_hit = True
+                if not hook_hit and not _scenario_fails(outs, wip):
                     break
             for s in inst["item"]["steps"]:
                 if s["o"] == "act":
@@ -493,6 +499,8 @@ def check_autoretry(res, case):
     res.label("autoretry")
     if base.get("hook_faults_named"):
         res.label("autoretry:hook-raises-in-every-attempt")
+    if base.get("hook_faults_attempts"):
+        res.label("autoretry:step-hook-raises-in-one-attempt")
     if case.get("whole_outlines") and any(it["k"] == "o" and sum(len(e["rows"]) for e in it["ex"]) >= 2
                                           for f in base["features"] for it, _r in iter_items(f)):
         res.label("autoretry:outline-as-a-whole")
@@ -554,6 +562,28 @@ def autoretry_case(draw):
         if names:
             prog["hook_faults_named"] = [[draw(st.sampled_from(["after_scenario", "after_scenario", "before_scenario"])),
                                           draw(st.sampled_from(names)), "Exception"]]
+    elif draw(st.integers(0, 1)) == 0:
+        # a STEP hook that raises in one attempt only (never in the last one): an attempt in which the step's hook
+        # raised, one in which an earlier step failed (the step is skipped), one in which everything passes -- ...
+        from ..program import normalize
+        normalize(prog)
+        plain = [it for f in prog["features"] for it, _r in iter_items(f) if it["k"] == "s" and it["steps"]]
+        if plain:
+            sc = plain[draw(st.integers(0, len(plain) - 1))]
+            j = draw(st.integers(0, len(sc["steps"]) - 1))
+            if case["attempts"] == 3 and j >= 1 and draw(st.booleans()):
+                for s in sc["steps"]:
+                    s["o"] = "pass"
+                    s.pop("acts", None)
+                    s.pop("a", None)
+                sc["steps"][j - 1]["o"] = "act"
+                sc["steps"][j - 1]["acts"] = draw(st.sampled_from([["pass", "fail", "pass"], ["pass", "raise", "pass"],
+                                                                   ["pass", "fail", "fail"]]))
+                attempt = 0
+            else:
+                attempt = draw(st.integers(0, case["attempts"] - 2))
+            prog["hook_faults_attempts"] = [[draw(st.sampled_from(["before_step", "before_step", "after_step"])),
+                                             sc["steps"][j]["uid"], draw(st.sampled_from(["Exception", "AssertionError"])), attempt]]
     return case
 
 
@@ -614,6 +644,7 @@ def required_labels(tier):
     return ["status-enum", "synthetic:scenario", "synthetic:outline", "synthetic:feature", "synthetic:rule",
             "run", "cut-short", "hook-fault", "raising-cleanup", "dry-run", "rerun:reset", "rerun:no-reset",
             "autoretry", "autoretry:outline-as-a-whole", "autoretry:hook-raises-in-every-attempt",
+            "autoretry:step-hook-raises-in-one-attempt",
             "aborted-without-failure:deselected-never-reached", "interrupt-in-hook:before_scenario",
             "interrupt-in-hook:after_feature", "interrupt-in-hook:after_step"]
 
